@@ -514,6 +514,46 @@ func c19Scenarios(thorough bool) []c19Scenario {
 	return out
 }
 
+// c19FullFS: the storage directory is a file system of 64 kB (tmpfs mounted in a private mount namespace) that is full
+// but for a few pages when a value is set again: the Set either stores the whole new value or fails and leaves the
+// previous one — for every (old length, new length, free pages) of a small grid. No kill is involved: "disk full" is
+// an answer of the environment like a short write.
+func c19FullFS(c *fw.Ctx) {
+	dir := filepath.Join(c.Scratch, "fullfs")
+	os.MkdirAll(dir, 0755)
+	defer os.RemoveAll(dir)
+	probe := exec.Command("unshare", "-rm", "sh", "-c", `mount -t tmpfs -o size=64k tmpfs "$0"`, dir)
+	if out, err := probe.CombinedOutput(); err != nil {
+		c.Note("full-file-system cases skipped: a private mount namespace with a tmpfs is not available here: " + strings.TrimSpace(string(out)))
+		return
+	}
+	for _, oldN := range []int{10, 3000, 20000} {
+		for _, newN := range []int{10, 3000, 20000, 40000} {
+			for _, free := range []int{0, 1, 2, 6, 11} {
+				c.Eval(1)
+				cas := c19Case{Scenario: c19Scenario{Name: fmt.Sprintf("full-file-system/old=%d,new=%d,free-pages=%d", oldN, newN, free), Args: []string{"fullfs", fmt.Sprint(oldN), fmt.Sprint(newN), fmt.Sprint(free)}}, Kill: -1}
+				cmd := exec.Command("unshare", "-rm", "sh", "-c", `mount -t tmpfs -o size=64k tmpfs "$0" && exec "$1" "$0" fullfs "$2" "$3" "$4"`, dir, c19Child(), fmt.Sprint(oldN), fmt.Sprint(newN), fmt.Sprint(free))
+				out, err := cmd.CombinedOutput()
+				line := ""
+				for _, l := range strings.Split(string(out), "\n") {
+					if strings.HasPrefix(l, "RESULT ") {
+						line = strings.TrimPrefix(l, "RESULT ")
+					}
+				}
+				switch {
+				case strings.HasPrefix(line, "ok"):
+					c.Class("full-file-system/" + line)
+				case strings.HasPrefix(line, "violation"):
+					c.Report(fmt.Sprintf("full-file-system/old=%d,new=%d,free=%d", oldN, newN, free), fmt.Sprintf("storage on a 64 kB file system with %d free pages, previous value %d bytes, new value %d bytes: %s", free, oldN, newN, strings.TrimPrefix(line, "violation ")), cas)
+				default:
+					c.Infra(fmt.Sprintf("full-file-system child: %v %s", err, trunc(out, 200)))
+					return
+				}
+			}
+		}
+	}
+}
+
 func c19Run(c *fw.Ctx) {
 	if _, err := exec.LookPath("strace"); err != nil {
 		c.Infra("strace not found")
@@ -534,6 +574,9 @@ func c19Run(c *fw.Ctx) {
 			c.Extra("tmpdir_on_other_device", 1)
 		}
 	}
+	if c.Shard == (c.NShards-1)/2 {
+		c19FullFS(c)
+	}
 	if c.Shard == c.NShards-1 {
 		// a write the operating system cuts short (no kill): success is only reported for a complete value
 		c18Faults(c)
@@ -550,7 +593,7 @@ func init() {
 	fw.Register(&fw.Check{
 		ID:    "C19",
 		Level: "fault_enumeration",
-		Rule:  "for each scenario (Set for every (old,new) ∈ {absent,3,10,5000 bytes} × {3,10,5000 bytes,empty}; Delete; SaveEntity over a longer / shorter / no entity; a whole hc.NewIPTransport start on a fresh, a paired-unchanged and a paired-structurally-changed store) every file-system syscall the operation issues (listed by a reference strace run) is a kill point: the real child process is SIGKILLed at the entry of exactly that call, the directory is re-opened and every key is read through hc's API: each must equal its previous or its new value in full and Entities() must succeed and list the previous or the new set; then every key is written again with a shorter value and read back (nothing a killed write left behind may leak into later writes). distinct_nontrivial = distinct (scenario, kill point) pairs reached and verified to follow the reference trace Writes cut short by the operating system without a kill (RLIMIT_FSIZE: 0, 1, 9, 4096, 65536 bytes; Set and SaveEntity over absent / short / long values): success only with the complete value, failure leaves the previous one. After every kill point the operation is also REPEATED by a restarted process and must complete and leave the new state; where PID namespaces are available (unshare -p) killed and restarted process have the same process id, as a container's pid 1 has; the child's TMPDIR is on another file system than the store when /dev/shm is one. Added: an administrator's add-pairing for an existing controller with another (equal-length, shorter) key and for a new one, through the pairing controller; Set on a key whose file is a symbolic link to another directory. Look-ups (EntityWithName of a stored / an unknown name, Entities) as operations, also on a directory that holds an entity file under the entity's plain name: a kill inside a look-up loses nothing either.",
+		Rule:  "for each scenario (Set for every (old,new) ∈ {absent,3,10,5000 bytes} × {3,10,5000 bytes,empty}; Delete; SaveEntity over a longer / shorter / no entity; a whole hc.NewIPTransport start on a fresh, a paired-unchanged and a paired-structurally-changed store) every file-system syscall the operation issues (listed by a reference strace run) is a kill point: the real child process is SIGKILLed at the entry of exactly that call, the directory is re-opened and every key is read through hc's API: each must equal its previous or its new value in full and Entities() must succeed and list the previous or the new set; then every key is written again with a shorter value and read back (nothing a killed write left behind may leak into later writes). distinct_nontrivial = distinct (scenario, kill point) pairs reached and verified to follow the reference trace Writes cut short by the operating system without a kill (RLIMIT_FSIZE: 0, 1, 9, 4096, 65536 bytes; Set and SaveEntity over absent / short / long values): success only with the complete value, failure leaves the previous one. After every kill point the operation is also REPEATED by a restarted process and must complete and leave the new state; where PID namespaces are available (unshare -p) killed and restarted process have the same process id, as a container's pid 1 has; the child's TMPDIR is on another file system than the store when /dev/shm is one. Added: an administrator's add-pairing for an existing controller with another (equal-length, shorter) key and for a new one, through the pairing controller; Set on a key whose file is a symbolic link to another directory. A storage directory that is a 64 kB file system of its own (tmpfs in a private mount namespace), full but for 0–11 pages when a value of 10 / 3000 / 20000 / 40000 bytes replaces one of 10 / 3000 / 20000: the Set stores the whole new value or fails and leaves the previous one, other keys untouched. Look-ups (EntityWithName of a stored / an unknown name, Entities) as operations, also on a directory that holds an entity file under the entity's plain name: a kill inside a look-up loses nothing either.",
 		Run:   c19Run,
 		Replay: func(c *fw.Ctx, raw json.RawMessage) {
 			var fc c18Case
